@@ -87,8 +87,10 @@ def handle (op : String) (a : Json) : R Json := do
       let ls := losers candidates winners
       let asns ← match scf with
         | Scf.plurality | Scf.approval =>
-            pure (winners.flatMap fun w => ls.map fun l =>
-              assertionJson scf contest w l candidates share 1 (plurality contest w l) B tE tN)
+            match pluralityPairs winners ls with
+            | .error e => return jErr e.toStr
+            | .ok ps => pure (ps.map fun (_, w, l) =>
+                assertionJson scf contest w l candidates share 1 (plurality contest w l) B tE tN)
         | Scf.supermajority =>
             match winners with
             | [] => throw "supermajority: no winner"
